@@ -443,7 +443,7 @@ def join_forms(toks, version, ctx):
         if out:
             prev = out[-1]
             if prev.endswith('\r') and (f.startswith('\n') or (version == '1.1' and f.startswith('\u0085'))):
-                out[-1] = prev[:-1] + '\n'
+                out[-1] = prev + '\n'       # lone CR -> CR LF: still exactly one line break, and no new CR LF pair with an earlier CR
             if ctx == 'content' and f.startswith('>') and ''.join(out).endswith(']]'):
                 f = '&gt;' + f[1:]
         out.append(f)
@@ -1002,3 +1002,21 @@ def project_expat(full, ns):
             res.extend(sorted(out[i:j], key=lambda t: (t[3], repr(t)))); i = j; continue
         res.append(e); i += 1
     return res
+
+
+def debug_repr(d):
+    """compact dump of the lexical choices (for triage of a failing case)"""
+    out = []
+    def w(n, ind):
+        if isinstance(n, El):
+            out.append('%sE %r' % (ind, n.qname))
+            for a in n.attrs: out.append('%s @%s %s written=%s pads=%r toks=%r' % (ind, a.qname, a.atype, a.written, a.pads, a.toks))
+            for c in n.children: w(c, ind + ' ')
+        elif isinstance(n, ER): out.append('%sER %s' % (ind, n.name))
+        else: out.append('%s%s %r' % (ind, n.k, n.toks))
+    w(d.root, '')
+    for e in list(d.ents_attr.values()): out.append('ENT %s attoks=%r' % (e.name, e.attoks))
+    for e in list(d.ents_content.values()):
+        out.append('ENT %s kind=%s' % (e.name, e.kind))
+        for c in e.content: w(c, '  ')
+    return '\n'.join(out)
